@@ -160,7 +160,8 @@ def f1_merge_stores(ctx: Ctx) -> None:
                                             and isinstance(y.value.func, ast.Attribute) and y.value.func.attr == 'astype' and y.value.args:
                                         r = y.value.args[0]
                                         rdefs = _defs(f, norm(r)) if isinstance(r, ast.Name) else []
-                                        if any(isinstance(dd.value, ast.Call) and call_name(dd.value) in RESOLVERS and f'{foreign}.dtype' in norm(dd.value) for dd in rdefs):
+                                        rvals = [dd.value for dd in rdefs] + ([r] if isinstance(r, ast.Call) else [])       # the resolver call, named or in place
+                                        if any(isinstance(rv, ast.Call) and call_name(rv) in RESOLVERS and f'{foreign}.dtype' in norm(rv) for rv in rvals):
                                             ok = True
                                             why = f'copy only while `{foreign}` is None (nothing foreign to store); otherwise astype(resolve_dtype({foreign}.dtype, ...))'
                     (ctx.ok if ok else ctx.bad)(R, f, a, why if ok else
@@ -379,7 +380,26 @@ def f3_resolver_shape(ctx: Ctx) -> None:
     (ctx.ok if good else ctx.bad)(R, f, first, 'equal dtypes are returned unchanged' if good else 'the equal-dtype short-circuit changed', key='equal-shortcut')
     # TypeBlocks.append row dtype widening
     g = prog.method('TypeBlocks', 'append', inherited=False)
-    wid = [n for n in walk_local(g.node) if isinstance(n, ast.If) and 'block.dtype != self._row_dtype' in norm(n) and 'self._row_dtype = DTYPE_OBJECT' in norm(n)]
+    # an if whose test compares (!=) the dtype of the appended block (the method's array parameter, possibly through a local) with self._row_dtype and whose
+    # body sets self._row_dtype = DTYPE_OBJECT
+    from sfa import roles as _roles
+    inl = _roles.Inliner(g.node)
+    sn = g.self_name() or 'self'
+    blk = [p_ for p_ in g.params if p_ != sn]
+
+    def _is_widening(n: ast.AST) -> bool:
+        if not isinstance(n, ast.If):
+            return False
+        sets = any(isinstance(a, ast.Assign) and norm(a.targets[0]) == f'{sn}._row_dtype' and norm(a.value) == 'DTYPE_OBJECT' for b in n.body for a in ast.walk(b))
+        if not sets:
+            return False
+        for c in ast.walk(inl.expr(n.test)):
+            if isinstance(c, ast.Compare) and len(c.ops) == 1 and isinstance(c.ops[0], ast.NotEq):
+                sides = {norm(c.left), norm(c.comparators[0])}
+                if f'{sn}._row_dtype' in sides and any(f'{b}.dtype' in sides for b in blk):
+                    return True
+        return False
+    wid = [n for n in walk_local(g.node) if _is_widening(n)]
     (ctx.ok if wid else ctx.bad)(R, g, g.node, 'a block of another dtype widens _row_dtype to object' if wid else
                                  'TypeBlocks.append no longer widens _row_dtype to object on a dtype mismatch: row extraction casts values', key='append-widening')
     init = prog.method('TypeBlocks', '__init__', inherited=False)
